@@ -45,8 +45,8 @@ def atoi (s : Str) : Option Int :=
     | r => (false, r)
   if digits.isEmpty ∨ !digits.all (fun c => 48 ≤ c ∧ c ≤ 57) then none
   else
-    let n := digits.foldl (fun acc c => acc * 10 + (c - 48)) 0
-    if n > 9223372036854775807 then none else some (if neg then -(n : Int) else n)
+    let n : Nat := digits.foldl (fun acc c => acc * 10 + (c - 48)) 0
+    if n > 9223372036854775807 then none else some (if neg then -(n : Int) else (n : Int))
 
 inductive Msg
   | response (data : Str)          -- returned through ParseResponse
@@ -56,7 +56,7 @@ deriving Repr, DecidableEq
 
 def classify (data : Str) : Msg :=
   if isResponse data then .response data
-  else match tagLookup (str "timeout") (data.length + 1) data with
+  else match tagLookup b!"timeout" (data.length + 1) data with
     | some v => (match atoi v with | some ms => .extend ms | none => .ignored)
     | none => .ignored
 
